@@ -133,11 +133,61 @@ def main():
             os.remove(old)
     import props  # harness/props.py (imports biobalm from /repo)
     runner = props.REGISTRY[prop]
+
+    def run_only(cases):
+        """run the property's own runner on exactly these cases (corpus mechanism, no generated cases)"""
+        import props_struct
+        saved = (props.load_corpus, props_struct._sizes)
+        mods = [m for name, m in sys.modules.items() if name.startswith("props")]
+        try:
+            for m in mods:
+                if hasattr(m, "load_corpus"):
+                    m.load_corpus = lambda pid, _c=cases: [dict(c) for c in _c]
+                if hasattr(m, "_sizes"):
+                    m._sizes = lambda tier, q, t: 0
+            os.environ["VERIF_ONLY_CORPUS"] = "1"
+            return runner("quick", seed)
+        finally:
+            for m in mods:
+                if hasattr(m, "load_corpus"):
+                    m.load_corpus = saved[0]
+                if hasattr(m, "_sizes"):
+                    m._sizes = saved[1]
+            os.environ.pop("VERIF_ONLY_CORPUS", None)
+
     if a.replay:
-        case = json.load(open(a.replay))
-        out = props.replay(prop, case)
-        print(json.dumps(out, indent=1, default=str))
-        sys.exit(0 if out.get("holds") else 1)
+        v = json.load(open(a.replay))
+        case = v.get("case", v)
+        if "history" in case:
+            case["history"] = [tuple(o) for o in case["history"]]
+        out = run_only([case])
+        sigs = sorted({x.get("signature") for x in out["violations"]})
+        print(json.dumps({"holds": not out["violations"], "signatures": sigs,
+                          "what": [x.get("what") for x in out["violations"]][:3]}, indent=1, default=str))
+        sys.exit(0 if not out["violations"] else 1)
+
+    def shrink(v):
+        """greedy minimisation of a failing history: drop ops while the same signature is reported"""
+        case = v.get("case")
+        if not isinstance(case, dict) or not isinstance(case.get("history"), list) or len(case["history"]) < 2:
+            return v
+        sig = v.get("signature")
+        cur = dict(case); cur["history"] = [tuple(o) for o in case["history"]]
+        tries = 0
+        i = 0
+        while i < len(cur["history"]) and tries < 25 and len(cur["history"]) > 1:
+            cand = dict(cur); cand["history"] = cur["history"][:i] + cur["history"][i + 1:]
+            tries += 1
+            try:
+                out = run_only([cand])
+            except Exception:
+                break
+            hit = next((x for x in out["violations"] if x.get("signature") == sig), None)
+            if hit:
+                cur = cand; v = dict(hit); v["shrunk_from"] = len(case["history"])
+            else:
+                i += 1
+        return v
 
     res = runner(tier, seed)      # -> dict(evaluations, distinct_nontrivial, rule, samples, violations, extra)
     known = [k for k in load_known() if k.get("property") == prop and k.get("status") == "known"]
@@ -159,6 +209,11 @@ def main():
         if sig in seen_sig:
             continue
         seen_sig.add(sig)
+        if v.get("failing_input", True) and os.environ.get("VERIF_NO_SHRINK") != "1":
+            try:
+                v = shrink(v)
+            except Exception:
+                pass
         h = hashlib.sha1(json.dumps(v, sort_keys=True, default=str).encode()).hexdigest()[:10]
         path = os.path.join(VERIF, "replays", f"{prop}-{h}.json")
         json.dump(v, open(path, "w"), indent=1, default=str)
